@@ -45,6 +45,41 @@ def wrap_case(seed, i, engine):
     return core.Case("backend", lines, {"engine": engine, "sub": a, "wrap": cap})
 
 
+def shared_batch_case(seed, i, engine):
+    """List, a watch from its revision + 1 on one directory AND a second watcher on another directory, then a burst of writes
+    across both directories that reaches the hub as ONE batch (the write in front of it is held inside the sequencer while the
+    others fill their slots): the hub hands every subscriber the same batch - the first watcher's List + events must still
+    give the later List, whatever the other watcher did with the shared batch. Judged on the implementation's transcript
+    only (the sequential model has no parked sequencer)."""
+    r = rng_for(seed, "c06s/%d" % i)
+    keys = r.sample(KEY_POOL, r.randint(3, 6))
+    sh = hist.Shadow()
+    a, b = PREFIX + b"/", PREFIX + b"0"
+    sub, other = r.choice([(PREFIX + b"/a/", PREFIX + b"/b/"), (PREFIX + b"/b/", PREFIX + b"/a/"), (PREFIX + b"/events/", PREFIX + b"/a/"),
+                           (PREFIX + b"/a/", PREFIX + b"/")])
+    lines = [hist.cfg_line(engine)]
+    lines += hist.gen_writes(r, sh, r.randint(0, 6), keys, p_ok=0.9)
+    lines += ["rev", "echo base", "list %s %s 0 0" % (hx(a), hx(b))]
+    R = sh.dealt
+    ws = [("w1", sub, R + 1), ("w2", other, r.choice([0, R + 1]))]
+    if r.random() < 0.5:
+        ws.reverse()
+    for w, pfx, start in ws:
+        lines.append("watch %s %s %d" % (w, hx(pfx), start))
+    n = 0
+    for _ in range(r.randint(1, 3)):
+        sg = r.choice(["seq.before_cache", "seq.before_broadcast"])
+        n += 1
+        lines += ["arm " + sg, "create %s %s" % (hx(other + b"h%d" % n), hx(b"v")), "await " + sg]
+        for _ in range(r.randint(2, 6)):
+            n += 1
+            d = r.choice([sub, other, sub])
+            lines.append("create %s %s" % (hx(d + b"n%d" % n), hx(r.choice([b"v1", b"v2", b"x" * 20]))))
+        lines += ["disarm " + sg, "sync"]
+    lines += ["rev", "drain w2", "drain w1", "echo later", "list %s %s 0 0" % (hx(a), hx(b))]
+    return core.Case("backend", lines, {"engine": engine, "sub": sub, "shared": True}, compare=lambda op: False)
+
+
 def future_case(seed, i, engine):
     """a range read at an explicit revision R ABOVE the committed one - R is the header of an acknowledged write while a
     write with a smaller revision is still on its way to the engine (parked at its commit) - then a watch from R+1, the
@@ -108,6 +143,8 @@ def oracle0(case):
                     case._mismatch = (dict(snap), dict(cur))
                     return ("line %d: applying the watch events to the earlier List gives %s, the later List (header %s) gives %s" % (
                         i + 1, snap, o[1], cur), "reconstruction-mismatch")
+        elif t[0] == "drain" and t[1] != "w1":
+            continue        # another watcher's stream (shared_batch_case): not part of this client's reconstruction
         elif t[0] == "drain" and len(o) >= 3 and snap is not None:
             if o[2] != "-":
                 for e in o[2].split(","):
@@ -119,7 +156,7 @@ def oracle0(case):
                         snap[k] = (v, int(rev))
             if o[3] == "closed=1":
                 refused = True
-    return None if case.meta.get("future") else hist.check_reads(case)
+    return None if case.meta.get("future") or case.meta.get("shared") else hist.check_reads(case)
 
 
 def check(rep, tier, seed):
@@ -127,6 +164,7 @@ def check(rep, tier, seed):
     cases = [gen_case(seed, i, ENGINES[i % 3]) for i in range(n)]
     cases += [future_case(seed, i, ENGINES[i % 3]) for i in range(3 if tier == "quick" else 60)]
     cases += [wrap_case(seed, i, ENGINES[i % 3]) for i in range(9 if tier == "quick" else 300)]
+    cases += [shared_batch_case(seed, i, ENGINES[i % 3]) for i in range(9 if tier == "quick" else 600)]
     core.run_cases(cases)
     if core.judge(rep, "C06", cases, oracle):
         return
